@@ -294,10 +294,16 @@ class Universe:
             with open(tmp, "wb") as f:
                 f.write(data)
             os.chmod(tmp, 0o644)
+            prev = os.stat(p).st_mtime_ns if os.path.exists(p) else 0
             os.rename(tmp, p)
-            self._stamp(p)
-        else:
-            self.tick()
+            # Real modification time, NOT the logical clock: the url SCM compares it with the time stamp of its
+            # ".extracted" canary, which carries the real time of the previous Bob run.  In real life an upstream
+            # change is younger than every earlier build; a Bob invocation (>= 50 ms) always lies between the
+            # previous build and this event, so nothing depends on timer granularity.
+            now = os.stat(p).st_mtime_ns
+            if now <= prev:
+                os.utime(p, ns=(prev + 1000000, prev + 1000000))
+        self.tick()
 
     def file_digest(self, k, algo):
         return hashlib.new(algo, self.files[k % self.NFILES]).hexdigest()
